@@ -146,7 +146,12 @@ func c15stop(c *core.Ctx) {
 		return
 	}
 	ok := false
-	ast.Inspect(d.Decl.Body, func(n ast.Node) bool {
+	lexLoop := lexemeLoop(c, d)
+	if lexLoop == nil {
+		c.Bad(R, "Length:break-at-EndTop", c.P.Pos(d.Decl.Pos()), "the lexeme loop of Length", "undecided: no loop calling Next() in Length or its helpers")
+		return
+	}
+	ast.Inspect(lexLoop.Body, func(n ast.Node) bool {
 		ifs, isIf := n.(*ast.IfStmt)
 		if !isIf || !strings.Contains(core.ExprStr(ifs.Cond), "EndTop") {
 			return true
@@ -214,7 +219,12 @@ func c15newline(c *core.Ctx) {
 	}
 	skipNL := false
 	endTopAssigns := false
-	ast.Inspect(d.Decl.Body, func(n ast.Node) bool {
+	lexLoop := lexemeLoop(c, d)
+	if lexLoop == nil {
+		c.Bad(R, "Length:newline", c.P.Pos(d.Decl.Pos()), "the lexeme loop of Length", "undecided: no loop calling Next() in Length or its helpers")
+		return
+	}
+	ast.Inspect(lexLoop.Body, func(n ast.Node) bool {
 		ifs, ok := n.(*ast.IfStmt)
 		if !ok {
 			return true
@@ -238,4 +248,27 @@ func c15newline(c *core.Ctx) {
 		return true
 	})
 	c.Check(skipNL && !endTopAssigns, R, "Length:newline", c.P.Pos(d.Decl.Pos()), "NewLine and EndTop lexemes do not move the length", core.F("the length follows positions outside the schema's own lexemes (NewLine skipped: %v, assignment at EndTop: %v): a trailing comment is inside or outside the measured schema depending on what follows", skipNL, endTopAssigns))
+}
+
+// lexemeLoop: the top-level loop of Length (or of a helper of the package it calls) that calls Next().
+func lexemeLoop(c *core.Ctx, d *core.DeclSite) *ast.ForStmt {
+	for _, hd := range helperBodies(c, d, 2) {
+		for _, st := range hd.Decl.Body.List {
+			fs, ok := st.(*ast.ForStmt)
+			if !ok {
+				continue
+			}
+			callsNext := false
+			ast.Inspect(fs, func(n ast.Node) bool {
+				if call, ok := n.(*ast.CallExpr); ok && strings.HasSuffix(core.ExprStr(call.Fun), ".Next") {
+					callsNext = true
+				}
+				return true
+			})
+			if callsNext {
+				return fs
+			}
+		}
+	}
+	return nil
 }
